@@ -1,6 +1,8 @@
 package main
 
 import (
+	"errors"
+	"time"
 	"fmt"
 	"sync"
 
@@ -57,24 +59,55 @@ type pNode struct {
 	proto  *dkg.Protocol
 	done   chan struct{}
 	res    dkg.OptionResult
+	got    dkg.OptionResult // written by the waiting goroutine before done is closed
+	stalled bool
 	k      int // position among the running nodes (selects the delivery order)
 }
+
+// stallAfter: a node that neither takes the next input nor finishes within this time is declared stalled (the driver
+// under test is blocked for good); the scenario then reports it as "does not complete" instead of dead-locking the harness.
+const stallAfter = 40 * time.Second
 
 // tick hands a phase to the node (unless it already finished) and then a no-op phase: when the second send returns the
 // node has finished handling the first.
 func (n *pNode) tick(p dkg.Phase) {
+	if n.stalled {
+		return
+	}
 	select {
 	case n.ph.ch <- p:
 	case <-n.done:
+		return
+	case <-time.After(stallAfter):
+		n.stalled = true
 		return
 	}
 	n.barrier()
 }
 func (n *pNode) barrier() {
+	if n.stalled {
+		return
+	}
 	select {
 	case n.ph.ch <- dkg.InitPhase:
 	case <-n.done:
+	case <-time.After(stallAfter):
+		n.stalled = true
 	}
+}
+
+// finished waits for the node's result; a stalled node has none.
+func (n *pNode) finished() {
+	if !n.stalled {
+		select {
+		case <-n.done:
+			n.res = n.got
+			return
+		case <-time.After(stallAfter):
+			n.stalled = true
+		}
+	}
+	n.res = dkg.OptionResult{Error: errors.New("stalled: the Protocol driver neither finished nor accepted further input")}
 }
 
 type protoCfg struct {
@@ -130,7 +163,7 @@ func runProtocols(x *hx.Ctx, nodes []*pNode, mk func(n *pNode) *dkg.Config, fast
 		}
 		n.proto = p
 		go func(n *pNode) {
-			n.res = <-p.WaitEnd()
+			n.got = <-p.WaitEnd()
 			close(n.done)
 		}(n)
 		running = append(running, n)
@@ -143,10 +176,15 @@ func runProtocols(x *hx.Ctx, nodes []*pNode, mk func(n *pNode) *dkg.Config, fast
 	out.mu.Unlock()
 	for _, n := range running {
 		for _, d := range pOrder(deals, order, n.k) {
+			if n.stalled {
+				continue
+			}
 			select {
 			case n.board.deals <- *d:
 				n.barrier()
 			case <-n.done:
+			case <-time.After(stallAfter):
+				n.stalled = true
 			}
 		}
 		n.tick(dkg.ResponsePhase) // the clock: a no-op for a node that already moved on in fast-sync (wrong phase => it aborts only if out of step)
@@ -156,10 +194,15 @@ func runProtocols(x *hx.Ctx, nodes []*pNode, mk func(n *pNode) *dkg.Config, fast
 	out.mu.Unlock()
 	for _, n := range running {
 		for _, r := range pOrder(resps, order, n.k) {
+			if n.stalled {
+				continue
+			}
 			select {
 			case n.board.resps <- *r:
 				n.barrier()
 			case <-n.done:
+			case <-time.After(stallAfter):
+				n.stalled = true
 			}
 		}
 		n.tick(dkg.JustifPhase)
@@ -170,16 +213,21 @@ func runProtocols(x *hx.Ctx, nodes []*pNode, mk func(n *pNode) *dkg.Config, fast
 	x.Outcome("bundles", fmt.Sprintf("deals=%d resps=%d justs=%d", len(deals), len(resps), len(justs)))
 	for _, n := range running {
 		for _, j := range pOrder(justs, order, n.k) {
+			if n.stalled {
+				continue
+			}
 			select {
 			case n.board.justs <- *j:
 				n.barrier()
 			case <-n.done:
+			case <-time.After(stallAfter):
+				n.stalled = true
 			}
 		}
 		n.tick(dkg.FinishPhase)
 	}
 	for _, n := range running {
-		<-n.done
+		n.finished()
 	}
 	_ = fast
 	return true
@@ -257,6 +305,9 @@ func protoCase(x *hx.Ctx, c protoCfg) {
 	if c.reshare == "shrink" || c.reshare == "shrink-absent" {
 		keep = c.n0 - 2
 	}
+	if c.reshare == "replace" {
+		keep = c.n0 - 1 // the last old member leaves; a newcomer (another key) takes over its index
+	}
 	for i := 0; i < keep; i++ {
 		members = append(members, old[i])
 	}
@@ -268,7 +319,7 @@ func protoCase(x *hx.Ctx, c protoCfg) {
 		members = append(members, n)
 	}
 	switch c.reshare {
-	case "grow":
+	case "grow", "replace":
 		addFresh(false)
 	case "shrink-absent":
 		addFresh(true) // a new share holder that never shows up: in fast-sync every dealer has to justify its share
@@ -373,7 +424,7 @@ func runProtocolsAuto(x *hx.Ctx, nodes []*pNode, mk func(n *pNode) *dkg.Config, 
 		}
 		n.proto = p
 		go func(n *pNode) {
-			n.res = <-p.WaitEnd()
+			n.got = <-p.WaitEnd()
 			close(n.done)
 		}(n)
 		running = append(running, n)
@@ -391,10 +442,15 @@ func runProtocolsAuto(x *hx.Ctx, nodes []*pNode, mk func(n *pNode) *dkg.Config, 
 	out.mu.Unlock()
 	for _, n := range running {
 		for _, d := range pOrder(deals, order, n.k) {
+			if n.stalled {
+				continue
+			}
 			select {
 			case n.board.deals <- *d:
 				n.barrier()
 			case <-n.done:
+			case <-time.After(stallAfter):
+				n.stalled = true
 			}
 		}
 		if len(deals) < dealers {
@@ -406,10 +462,15 @@ func runProtocolsAuto(x *hx.Ctx, nodes []*pNode, mk func(n *pNode) *dkg.Config, 
 	out.mu.Unlock()
 	for _, n := range running {
 		for _, r := range pOrder(resps, order, n.k) {
+			if n.stalled {
+				continue
+			}
 			select {
 			case n.board.resps <- *r:
 				n.barrier()
 			case <-n.done:
+			case <-time.After(stallAfter):
+				n.stalled = true
 			}
 		}
 		if len(resps) < holders {
@@ -422,16 +483,21 @@ func runProtocolsAuto(x *hx.Ctx, nodes []*pNode, mk func(n *pNode) *dkg.Config, 
 	x.Outcome("bundles", fmt.Sprintf("deals=%d resps=%d justs=%d", len(deals), len(resps), len(justs)))
 	for _, n := range running {
 		for _, j := range pOrder(justs, order, n.k) {
+			if n.stalled {
+				continue
+			}
 			select {
 			case n.board.justs <- *j:
 				n.barrier()
 			case <-n.done:
+			case <-time.After(stallAfter):
+				n.stalled = true
 			}
 		}
 		n.tick(dkg.FinishPhase) // the last period expires (ignored by a node that already finished)
 	}
 	for _, n := range running {
-		<-n.done
+		n.finished()
 	}
 	return true
 }
